@@ -124,7 +124,7 @@ def replay_file(pid, path, root):
         pass
     ob = O()
     ob.name = ob.base_name = rep['obligation']
-    for b in ('ledger', 'model', 'box', 'radii', 'table', 'jsonrt', 'inputs', 'paramcheck', 'passthru', 'vecs', 'owner', 'coord', 'dirlen', 'precond', 'strtot', 'svdfloor', 'trlin', 'trsbox', 'trclip', 'trsnorm', 'coordoff'):
+    for b in ('ledger', 'model', 'box', 'radii', 'table', 'jsonrt', 'inputs', 'paramcheck', 'passthru', 'vecs', 'owner', 'coord', 'dirlen', 'precond', 'strtot', 'svdfloor', 'trlin', 'trsbox', 'trclip', 'trsnorm', 'trsdec', 'coordoff'):
         if ob.name.endswith(' [%s]' % b):
             ob.base_name = ob.name[:-len(' [%s]' % b)]
     ob.kind, ob.func, ob.line, ob.tags = rep.get('kind'), rep.get('function'), rep.get('line', 0), rep.get('tags', [])
